@@ -1,0 +1,22 @@
+//go:build verif
+
+// Copyright © 2022-2026 Obol Labs Inc. Licensed under the terms of a Business Source License 1.1
+
+package deposit
+
+import (
+	eth2p0 "github.com/attestantio/go-eth2-client/spec/phase0"
+)
+
+// Verification hooks (build tag verif): read-only access to the unexported helpers of this
+// package. No behaviour is added or changed.
+
+// VerifGetDepositDomain is getDepositDomain.
+func VerifGetDepositDomain(forkVersion eth2p0.Version) (eth2p0.Domain, error) {
+	return getDepositDomain(forkVersion)
+}
+
+// VerifWithdrawalCredsFromAddr is withdrawalCredsFromAddr.
+func VerifWithdrawalCredsFromAddr(addr string, compounding bool) ([32]byte, error) {
+	return withdrawalCredsFromAddr(addr, compounding)
+}
